@@ -471,6 +471,34 @@ def run(index, rep, tier):
         rep.rule("R06.9", "what is computed from the per-split multisets is order-free: order statistics are read from the sorted sample (C05 R05.11)")
         rep.floor("R06.9", "borrowed obligations", 1, borrow(index, rep, "C05", {"R05.11"}, "R06.9"))
 
+    # ---- R06.10 a setting lives in two places, and changes in both
+    with rep.section("R06.10"):
+        rep.rule("R06.10", "a setting that both a TreeArray and its SplitDistribution hold changes in both: a TreeArray method that re-assigns ignore_edge_lengths / ignore_node_ages / use_tree_weights on self (an empty array adopting the settings of the array merged into it) assigns the same attribute of self._split_distribution on the same path - the counting is done by the distribution")
+        ta = index.klass(TA)
+        sd = index.klass(SD)
+        def settings(k):
+            init = k.methods["__init__"]
+            return {w.attr for w in writes_in(init.node) if w.kind == "store" and w.base is not None and norm(w.base) == "self" and w.value is not None and isinstance(w.value, ast.Name) and w.value.id in init.params}
+        shared = settings(ta) & settings(sd)
+        rep.floor("R06.10", "settings held by both classes", 3, len(shared))
+        nst = 0
+        for m in ta.methods.values():
+            if m.name == "__init__":
+                continue
+            g = None
+            for w in writes_in(m.node):
+                if not (w.kind == "store" and w.base is not None and norm(w.base) == "self" and w.attr in shared):
+                    continue
+                nst += 1
+                g = g or cfg_of(m)
+                ok = all(g.must_pass(nd, lambda x, a=w.attr: x.kind == "stmt" and isinstance(x.ast, ast.Assign) and any(norm(t) in ("self._split_distribution." + a, "self.split_distribution." + a) for t in x.ast.targets))[0] or
+                         g.dominated_by(nd, lambda x, a=w.attr: x.kind == "stmt" and isinstance(x.ast, ast.Assign) and any(norm(t) in ("self._split_distribution." + a, "self.split_distribution." + a) for t in x.ast.targets), follow_exc=False)
+                         for nd in g.nodes_of_stmt(w.stmt))
+                rep.check(ok, "R06.10", m.qualname, "%s changed on the array only" % w.attr, fn_where(m, w.stmt), "%s sets %s on the array and on its distribution" % (m.name, w.attr),
+                          "%s assigns `self.%s` without assigning the same attribute of self._split_distribution, which is the object that weights and counts the splits: an empty array that adopts the settings of the first sub-collection merged into it (use_tree_weights=False, say) shows the new setting on itself while its distribution keeps counting under the old one - trees added afterwards are weighted although the array says they are not, and the frequencies of the merged sample are wrong" % (m.qualname, w.attr))
+        rep.floor("R06.10", "re-assignments of shared settings in TreeArray", 3, nst)
+
+
 def _root_of(e):
     while isinstance(e, (ast.Attribute, ast.Subscript, ast.Call)):
         e = e.func if isinstance(e, ast.Call) else e.value
